@@ -713,6 +713,8 @@ def expr_str(e):
         return "%s[%s..%s]" % (expr_str(e[1]), e[2], e[3])
     if k == "unknown":
         return "?%s" % (e[1],) if len(e) > 1 else "?"
+    if k == "upd":
+        return "%s{%s}" % (expr_str(e[1]), ", ".join("%s: %s" % (n, expr_str(v)) for n, v in e[2]))
     return "?%s" % (e[1:],) if len(e) > 1 else "?"
 
 
